@@ -129,6 +129,41 @@ def run(ctx):
                      {"op": "restore", "band": 1, "dest": "dest"},
                      {"op": "snap", "path": "outside"}, {"op": "snap", "path": "dest"}]
             cases.append({"id": f"s{t}_{k}", "tree": t1, "opts": {}, "destkind": "absent", "stitched": True, "steps": steps})
+    # one version restored over another with the overwrite option: what the first restore put there (symlinks from the
+    # source) must not be written through by the second
+    for t in range(12 if quick else 300):
+        ta = tree_with_links(ctx)
+        tb = json.loads(json.dumps(ta))
+        swapped = []
+
+        def swap(node, path):
+            for nm in sorted(node["c"]):
+                ch = node["c"][nm]
+                if ch["k"] == "l":
+                    if ctx.rng.random() < 0.7:
+                        if "sentinel" in ch["target"] or "inner" in ch["target"] or ctx.rng.random() < 0.3:
+                            node["c"][nm] = {"k": "f", "data": gen.rand_bytes(ctx.rng, 5).hex(), "mode": 0o604, "mtime": 10**18 + 321}
+                        else:
+                            node["c"][nm] = {"k": "d", "mode": 0o701, "mtime": 10**18 + 322, "c": {
+                                "inner": {"k": "f", "data": "4e4557", "mode": 0o666, "mtime": 10**18 + 323},
+                                "sentinel": {"k": "f", "data": "4e", "mode": 0o666, "mtime": 10**18 + 324},
+                                "sdir": {"k": "d", "mode": 0o777, "mtime": 10**18 + 325, "c": {
+                                    "inner": {"k": "l", "target": "x", "mtime": 10**18 + 326},
+                                    "deep": {"k": "f", "data": "64", "mode": 0o644, "mtime": 10**18 + 327}}}}}
+                            swapped.append(path + "/" + nm)
+                elif ch["k"] == "d":
+                    swap(ch, path + "/" + nm)
+        swap(tb, "")
+        first, second = (0, 1) if t % 3 else (1, 0)
+        rs = {"op": "restore", "band": second, "dest": "dest", "overwrite": True}
+        if swapped and second == 1 and t % 2:
+            rs["subtree"] = ctx.rng.choice(swapped) + ctx.rng.choice(["", "/sdir"])
+        steps = [{"op": "init"}, {"op": "mktree", "path": "outside", "tree": OUTSIDE}, {"op": "mktree", "path": "src", "tree": ta},
+                 {"op": "backup", "opts": scen.small_opts(ctx.rng)}, {"op": "mktree", "path": "src", "tree": tb},
+                 {"op": "backup", "opts": scen.small_opts(ctx.rng)},
+                 {"op": "restore", "band": first, "dest": "dest"},
+                 {"op": "snap", "path": "outside"}, {"op": "snap", "path": "dest"}, rs, {"op": "snap", "path": "outside"}, {"op": "snap", "path": "dest"}]
+        cases.append({"id": f"o{t}", "tree": ta, "opts": {}, "destkind": "absent", "over": True, "steps": steps})
     res = ctx.cvh_run(cases)
     for c in cases:
         r = res.get(c["id"])
@@ -143,7 +178,7 @@ def run(ctx):
             continue
         d = scen.first_difference(scen.strip(before.get("tree")), scen.strip(after.get("tree")))
         if d:
-            sig = "confine/stitched-symlink-ancestor" if c.get("stitched") else "confine/outside-modified"
+            sig = "confine/stitched-symlink-ancestor" if c.get("stitched") else ("confine/overwrite-through-restored-symlink" if c.get("over") else "confine/outside-modified")
             ctx.oracle_fail(sig, f"restore changed something outside its destination: {d[0]!r} ({d[1]}: {d[2]} -> {d[3]})", small)
             continue
         if c["destkind"] in ("populated", "symlinks-only"):
@@ -153,13 +188,13 @@ def run(ctx):
             if scen.first_difference(scen.strip(dbefore.get("tree")), scen.strip(dafter.get("tree"))):
                 ctx.oracle_fail("confine/refused-but-touched", "restore refused a non-empty destination but changed it", small)
                 continue
-        elif not c.get("stitched") and rs.get("result") != "ok":
+        elif not c.get("stitched") and not c.get("over") and rs.get("result") != "ok":
             ctx.oracle_fail("confine/restore-failed", f"restore failed: {json.dumps(rs.get('err'))[:200]}", small)
             continue
         links = [n["target"] for _, n in gen.tree_paths(c["tree"]) if n["k"] == "l"]
         if any("outside" in t or t.startswith("..") for t in links):
             ctx.nontrivial(json.dumps([c["destkind"], sorted(links), c.get("stitched", False)]))
-        ctx.dist("dest_" + c["destkind"] + ("_stitched" if c.get("stitched") else ""))
+        ctx.dist("dest_" + c["destkind"] + ("_stitched" if c.get("stitched") else "") + ("_overwrite_after_restore" if c.get("over") else ""))
     guard_correspondence(ctx, cases, res)
     if cases:
         ctx.sample({"link_targets": sorted({n["target"] for _, n in gen.tree_paths(cases[0]["tree"]) if n["k"] == "l"})})
